@@ -15,7 +15,10 @@ def _enum(key, value_shape):
     cls = live_module(mod)
     for part in q.split("."):
         cls = getattr(cls, part)
-    members = [(m.name, m.value) for m in cls]      # canonical members only (aliases merged)
+    # canonical members only (aliases merged).  `Self = TypeVar(...)` inside an Enum body is
+    # itself a member (value: the TypeVar); it can never equal a parsed value and is left out.
+    import typing
+    members = [(m.name, m.value) for m in cls if not isinstance(m.value, typing.TypeVar)]
     return EnumS(key, value_shape, members)
 
 
